@@ -56,6 +56,14 @@ class ClassInfo(object):
                         for d in node.decorator_list)
     self.attrs_frozen = any('frozen=True' in ast.unparse(d) for d in node.decorator_list)
     self.nested = {}
+    self.namedtuple_fields = None
+    for b in node.bases:
+      if isinstance(b, ast.Call) and ast.unparse(b.func) in ('collections.namedtuple', 'namedtuple') and len(b.args) == 2:
+        try:
+          f = ast.literal_eval(b.args[1])
+          self.namedtuple_fields = f.split() if isinstance(f, str) else list(f)
+        except Exception:
+          pass
 
   def __repr__(self):
     return '<Class %s>' % self.name
@@ -234,6 +242,12 @@ class ModuleInfo(object):
         sub = self._scan_class(st, qual + '.')
         c.nested[st.name] = sub
       elif isinstance(st, (ast.Assign, ast.AnnAssign)):
+        if isinstance(st, ast.Assign) and len(st.targets) == 1 and isinstance(st.targets[0], ast.Tuple) and \
+            all(isinstance(e, ast.Name) for e in st.targets[0].elts):
+          # A, B = f(...)  at class level: each name is the corresponding component
+          for k, e in enumerate(st.targets[0].elts):
+            c.class_attrs[e.id] = ast.Subscript(value=st.value, slice=ast.Constant(k), ctx=ast.Load())
+          continue
         if isinstance(st, ast.Assign):
           if len(st.targets) != 1 or not isinstance(st.targets[0], ast.Name):
             continue
